@@ -205,6 +205,21 @@ def step (st : State) (w : List String) : State × String :=
       else if k == "emfile" || k == "econnaborted" || k == "nettemp" then AcceptRes.err false true
       else AcceptRes.err false false
     (st, s!"admitted={boolStr (acceptLoop (rs ++ [.conn]) == 1)}")
+  | ["drain", "new"] => (st, "ok")
+  | ["drain", script] =>
+    let toks := script.splitOn ","
+    let ops : Option (List DOp) := (toks.zipIdx).mapM fun (t, i) =>
+      if t == "f" then some DOp.flush
+      else if t == "x" then some DOp.break
+      else if t.startsWith "s" then (t.drop 1).toNat?.map (fun l => DOp.stage i l)
+      else none
+    match ops with
+    | some ops =>
+      let r := Drain.run 8192 65535 {} ops
+      let res := String.ofList (r.2.map fun b => if b then 'o' else 'e')
+      let wire := if r.1.wire.isEmpty then "-" else ",".intercalate (r.1.wire.map toString)
+      (st, s!"res={res} wire={wire}")
+    | none => (st, "bad-op")
   | ["conncap", "new"] => (st, "ok")
   | ["conncap", c, b] =>
     match c.toNat?, b.toNat? with
